@@ -8,10 +8,10 @@ set_option linter.unusedSimpArgs false
 namespace MsVerif.Pol
 open Sem Conc
 
-theorem andBinary_go_iff (l : List CPolicy) : andBinary.go l = true ↔ ∀ c ∈ l, andBinary c = true := by
+theorem andOrNonEmpty_go_iff (l : List CPolicy) : andOrNonEmpty.go l = true ↔ ∀ c ∈ l, andOrNonEmpty c = true := by
   induction l with
-  | nil => simp [andBinary.go]
-  | cons p ps ih => simp [andBinary.go, ih]
+  | nil => simp [andOrNonEmpty.go]
+  | cons p ps ih => simp [andOrNonEmpty.go, ih]
 
 theorem collectLift_ok {rs : List LiftRes} {k : List Policy → LiftRes} {s : Policy}
     (h : collectLift rs k = .ok s) : ∃ ps, rs = ps.map LiftRes.ok ∧ k ps = .ok s := by
@@ -23,7 +23,7 @@ theorem collectLift_ok {rs : List LiftRes} {k : List Policy → LiftRes} {s : Po
       obtain ⟨ps, hps, hk⟩ := ih (k := fun ps => k (p :: ps)) h
       exact ⟨p :: ps, by simp [hps], hk⟩
     | err => simp [collectLift] at h
-    | panic => simp [collectLift] at h
+    | errThreshold => simp [collectLift] at h
 
 /-- children lifted one by one with the same truth values ⇒ same count, same length -/
 theorem lifted_children (v : Atom → Bool) :
@@ -50,49 +50,46 @@ theorem lifted_children (v : Atom → Bool) :
       simp [List.countP_cons, this, i1, i2]
 
 theorem lift_holdsA (v : Atom → Bool) :
-    ∀ c, andBinary c = true → ∀ s, lift c = .ok s → holdsA v s = holdsC v c := by
+    ∀ c, ∀ s, lift c = .ok s → holdsA v s = holdsC v c := by
   intro c
   induction c using CPolicy.induct' with
-  | unsat => intro _ s h; simp [lift] at h; subst h; rfl
-  | trivial => intro _ s h; simp [lift] at h; subst h; rfl
-  | atom a => intro _ s h; simp [lift] at h; subst h; rfl
+  | unsat => intro s h; simp [lift] at h; subst h; rfl
+  | trivial => intro s h; simp [lift] at h; subst h; rfl
+  | atom a => intro s h; simp [lift] at h; subst h; rfl
   | and subs ih =>
-    intro hb s h
-    simp only [andBinary, Bool.and_eq_true, beq_iff_eq, andBinary_go_iff] at hb
+    intro s h
     rw [lift] at h
     split at h
     · simp at h
     · obtain ⟨ps, hps, hk⟩ := collectLift_ok h
       rw [liftList_eq] at hps
-      obtain ⟨hc, hl⟩ := lifted_children v subs ps (fun c hc => ih c hc (hb.2 c hc)) hps
+      obtain ⟨hc, hl⟩ := lifted_children v subs ps ih hps
       split at hk
       · simp only [LiftRes.ok.injEq] at hk
         subst hk
-        rw [normalized_holdsA, holdsA_thresh, holdsC, countC_eq, hc, hb.1]
+        rw [normalized_holdsA, holdsA_thresh, holdsC, countC_eq, hc, hl]
       · simp at hk
   | or subs ih =>
-    intro hb s h
-    simp only [andBinary, andBinary_go_iff] at hb
+    intro s h
     rw [lift] at h
     split at h
     · simp at h
     · obtain ⟨ps, hps, hk⟩ := collectLift_ok h
       rw [liftList_eq] at hps
-      obtain ⟨hc, hl⟩ := lifted_children v subs ps (fun c hc => ih c hc (hb c hc)) hps
+      obtain ⟨hc, hl⟩ := lifted_children v subs ps ih hps
       split at hk
       · simp only [LiftRes.ok.injEq] at hk
         subst hk
         rw [normalized_holdsA, holdsA_thresh, holdsC, countC_eq, hc]
       · simp at hk
   | thresh k subs ih =>
-    intro hb s h
-    simp only [andBinary, andBinary_go_iff] at hb
+    intro s h
     rw [lift] at h
     split at h
     · simp at h
     · obtain ⟨ps, hps, hk⟩ := collectLift_ok h
       rw [liftList_eq] at hps
-      obtain ⟨hc, hl⟩ := lifted_children v subs ps (fun c hc => ih c hc (hb c hc)) hps
+      obtain ⟨hc, hl⟩ := lifted_children v subs ps ih hps
       simp only [LiftRes.ok.injEq] at hk
       subst hk
       rw [normalized_holdsA, holdsA_thresh, holdsC, countC_eq, hc]
@@ -123,17 +120,16 @@ theorem check_children (k : Nat) (subs : List CPolicy)
       (Or.inl ⟨_, List.mem_map.mpr ⟨c, hc, rfl⟩, hcc⟩)
     rw [h] at this; simp at this
 
-theorem lift_total : ∀ c, andBinary c = true → WFC c = true →
+theorem lift_total : ∀ c, andOrNonEmpty c = true →
     (checkTimelocks c = false ∧ lift c = .err) ∨ (checkTimelocks c = true ∧ ∃ s, lift c = .ok s) := by
   intro c
   induction c using CPolicy.induct' with
-  | unsat => intro _ _; exact Or.inr ⟨rfl, _, rfl⟩
-  | trivial => intro _ _; exact Or.inr ⟨rfl, _, rfl⟩
-  | atom a => intro _ _; exact Or.inr ⟨by cases a <;> rfl, _, rfl⟩
+  | unsat => intro _; exact Or.inr ⟨rfl, _, rfl⟩
+  | trivial => intro _; exact Or.inr ⟨rfl, _, rfl⟩
+  | atom a => intro _; exact Or.inr ⟨by cases a <;> rfl, _, rfl⟩
   | and subs ih =>
-    intro hb hw
-    simp only [andBinary, Bool.and_eq_true, beq_iff_eq, andBinary_go_iff] at hb
-    simp only [WFC, WFC_go_iff] at hw
+    intro hb
+    simp only [andOrNonEmpty, Bool.and_eq_true, decide_eq_true_eq, andOrNonEmpty_go_iff] at hb
     cases hck : checkTimelocks (.and subs)
     · left; exact ⟨rfl, by rw [lift, hck]; rfl⟩
     · right
@@ -143,15 +139,15 @@ theorem lift_total : ∀ c, andBinary c = true → WFC c = true →
         simpa [checkTimelocks, timelockInfo, timelockInfoList_eq] using hck
       have hch := check_children _ subs hcomb
       obtain ⟨ps, hps, hl⟩ := exists_ok_list subs (fun c hc => by
-        rcases ih c hc (hb.2 c hc) (hw c hc) with ⟨h1, _⟩ | ⟨_, h2⟩
+        rcases ih c hc (hb.2 c hc) with ⟨h1, _⟩ | ⟨_, h2⟩
         · rw [hch c hc] at h1; simp at h1
         · exact h2)
       rw [lift, hck, liftList_eq, hps, collectLift_all_ok]
-      simp [hl, hb.1]
+      have : 1 ≤ ps.length := by omega
+      simp [this]
   | or subs ih =>
-    intro hb hw
-    simp only [andBinary, andBinary_go_iff] at hb
-    simp only [WFC, Bool.and_eq_true, decide_eq_true_eq, WFC_go_iff] at hw
+    intro hb
+    simp only [andOrNonEmpty, Bool.and_eq_true, decide_eq_true_eq, andOrNonEmpty_go_iff] at hb
     cases hck : checkTimelocks (.or subs)
     · left; exact ⟨rfl, by rw [lift, hck]; rfl⟩
     · right
@@ -161,16 +157,15 @@ theorem lift_total : ∀ c, andBinary c = true → WFC c = true →
         simpa [checkTimelocks, timelockInfo, timelockInfoList_eq] using hck
       have hch := check_children _ subs hcomb
       obtain ⟨ps, hps, hl⟩ := exists_ok_list subs (fun c hc => by
-        rcases ih c hc (hb c hc) (hw.2 c hc) with ⟨h1, _⟩ | ⟨_, h2⟩
+        rcases ih c hc (hb.2 c hc) with ⟨h1, _⟩ | ⟨_, h2⟩
         · rw [hch c hc] at h1; simp at h1
         · exact h2)
       rw [lift, hck, liftList_eq, hps, collectLift_all_ok]
       have : 1 ≤ ps.length := by omega
       simp [this]
   | thresh k subs ih =>
-    intro hb hw
-    simp only [andBinary, andBinary_go_iff] at hb
-    simp only [WFC, Bool.and_eq_true, decide_eq_true_eq, WFC_go_iff] at hw
+    intro hb
+    simp only [andOrNonEmpty, andOrNonEmpty_go_iff] at hb
     cases hck : checkTimelocks (.thresh k subs)
     · left; exact ⟨rfl, by rw [lift, hck]; rfl⟩
     · right
@@ -180,7 +175,7 @@ theorem lift_total : ∀ c, andBinary c = true → WFC c = true →
         simpa [checkTimelocks, timelockInfo, timelockInfoList_eq] using hck
       have hch := check_children _ subs hcomb
       obtain ⟨ps, hps, hl⟩ := exists_ok_list subs (fun c hc => by
-        rcases ih c hc (hb c hc) (hw.2 c hc) with ⟨h1, _⟩ | ⟨_, h2⟩
+        rcases ih c hc (hb c hc) with ⟨h1, _⟩ | ⟨_, h2⟩
         · rw [hch c hc] at h1; simp at h1
         · exact h2)
       rw [lift, hck, liftList_eq, hps, collectLift_all_ok]
